@@ -275,15 +275,26 @@ def run(ctx):
         ctx.ob("F-SKELETON", "%s task = budget sentence" % label_, ok, "emits %s" % (kinds,))
     it = f.hir_fn("format_floats", module="impl_enum::formatter")
     got = Em.fn(it["path"], ["fmt", "@sink", "$1", "$2", "$3", "$4"])
-    ctx.ob("F-SKELETON", "enum numbers = b (num (sep num)*)? b", same(got, ["$1", ("join", None, ["$3"], "to_string(item)"), "$2"]) or
-           (len(got) == 3 and got[0] == "$1" and got[2] == "$2" and got[1][0] == "join" and got[1][2] == ["$3"]), "emits %s" % (got,))
+    # every number is written by f64's Display (`to_string`): the grammar's truth_budget_term = (ASCII_DIGIT | ".")+ needs at least one
+    # character per entry and nothing but digits and '.', which Display guarantees for finite values in [0,1] (seed c11-d: a trimming
+    # helper printed 0.0 as the empty string)
+    ok_num = len(got) == 3 and got[0] == "$1" and got[2] == "$2" and isinstance(got[1], tuple) and got[1][0] == "join" and got[1][2] == ["$3"] \
+        and got[1][3] == "to_string(item)"
+    ctx.ob("F-SKELETON", "enum numbers = b (num (sep num)*)? b, each num written by Display", ok_num, "emits %s" % (got,))
+    strs = hir.find_calls(it["body"], "to_string")
+    ctx.ob("F-SKELETON", "enum numbers: to_string is f64's Display", len(strs) == 1 and strs[0].get("def") == "std::string::ToString::to_string"
+           and "f64" in (strs[0]["recv"].get("ty") or ""), "%s" % [(c.get("def"), c["recv"].get("ty")) for c in strs])
     for nm, b, sep, opt in (("_format_truth", "fmt.sentence.truth_brackets", "fmt.sentence.truth_separator", True),
                             ("_format_budget", "fmt.task.budget_brackets", "fmt.task.budget_separator", False)):
         it = f.hir_fn(nm, module="impl_lexical::formatter")
         got = Em.fn(it["path"], ["fmt", "@sink", "$v"])
         core = [g for g in got if not (isinstance(g, tuple) and g[0] == "unless")]
+        guards_ = [g for g in got if isinstance(g, tuple) and g[0] in ("unless", "if", "ifnot")]
         ok = len(core) == 3 and core[0] == b + ".0" and core[2] == b + ".1" and core[1][0] == "join" and core[1][2] == [sep]
-        ctx.ob("F-SKELETON", "lexical %s = b (num (sep num)*)? b" % nm, ok, "emits %s" % (got,))
+        # sentence = term punctuation stamp? truth?  (an empty truth is omitted);  task = budget sentence with budget_content possibly ""
+        # (an empty budget keeps its brackets: without them the output is a sentence, not a task -- seed c11-c)
+        ok_guard = (guards_ == [("unless", "is_empty($v)")] and got[0] == guards_[0]) if opt else not guards_
+        ctx.ob("F-SKELETON", "lexical %s = b (num (sep num)*)? b, %s" % (nm, "omitted when empty" if opt else "brackets always written"), ok and ok_guard, "emits %s" % (got,))
     lt = f.hir_fn("_format_term", module="impl_lexical::formatter")
     got = Em.fn(lt["path"], ["fmt", "@sink", "$t"])
     arms = got[0][2] if got and isinstance(got[0], tuple) and got[0][0] == "match" else {}
